@@ -81,6 +81,33 @@ partial def parseGO : List String → Option (List (G × List (Int × Int)))
     pure ((⟨a, b, c, d, false⟩, pairs cs) :: tl)
   | _ => none
 
+/-- `S k c1 … ck` / `N v` -/
+partial def parseTJ : List String → Option (List TJItem)
+  | [] => some []
+  | "S" :: k :: rest => do
+    let k ← k.toNat?
+    if rest.length < k then none else
+    let cs ← nats? (rest.take k)
+    let tl ← parseTJ (rest.drop k)
+    pure (TJItem.str cs :: tl)
+  | "N" :: v :: rest => do
+    let v ← v.toInt?
+    let tl ← parseTJ rest
+    pure (TJItem.num v :: tl)
+  | _ => none
+
+partial def pairsNI : List String → Option (List (Nat × Int))
+  | [] => some []
+  | a :: b :: rest => do
+    let a ← a.toNat?
+    let b ← b.toInt?
+    let tl ← pairsNI rest
+    pure ((a, b) :: tl)
+  | _ => none
+
+def splitBar (ts : List String) : List String × List String :=
+  (ts.takeWhile (· ≠ "|"), (ts.dropWhile (· ≠ "|")).drop 1)
+
 def handle : List String → Option String
   | "SUB" :: ts => do
     let gs ← nats? ts
@@ -120,6 +147,59 @@ def handle : List String → Option String
     let upm ← upm.toInt?
     let adv ← adv.toInt?
     pure (toString (wWidth upm adv))
+  | "TJB" :: upm :: ts => do
+    -- the whole TJ array, byte for byte
+    let upm ← upm.toInt?
+    let gs ← pairsNI ts
+    pure (joinS ((tjBytes (tjBuild upm gs)).map toString))
+  | "TJR" :: ts => do
+    -- L3 §9.4.3 reading of an observed array
+    let items ← parseTJ ts
+    let r := tjRead items
+    pure (joinS (toString r.1 :: r.2.map (fun p => toString p.1 ++ " " ++ toString p.2)))
+  | "LIT" :: ts => do
+    -- L3 §7.3.4.2 reader on observed raw bytes (after the opening parenthesis)
+    let bs ← nats? ts
+    match readLit LSt.start bs with
+    | some (s, rest) => pure (joinS (s.map toString ++ ["|", toString rest.length]))
+    | none => pure "unterminated"
+  | "CM" :: ts => do
+    let ids ← nats? ts
+    pure (joinS ((encodeCidMap ids).map toString))
+  | "CG" :: sub :: ts => do
+    -- end to end: Get history -> codes -> glyph shown by each code (0 TrueType whole, 1 subset, 2 CFF whole)
+    let h ← nats? ts
+    let r := Sub.new.run h
+    pure (joinS (r.2.map (fun c => match codeGlyph (sub == "1") (sub != "2") r.1.ids c with | some g => toString g | none => "x")))
+  | "WFM" :: upm :: n :: ts => do
+    let upm ← upm.toInt?
+    let n ← n.toNat?
+    if ts.length < n + 1 then none else
+    let advs ← ints? (ts.take n)
+    let dw ← (ts.drop n).head? >>= String.toInt?
+    let es ← parseEnts (ts.drop (n + 1))
+    let ws := advs.map (wWidth upm)
+    match (List.range 41).find? (fun thr => encodeWT thr ws == (dw, es)) with
+    | some _ => pure "ok"
+    | none => let r := fontW upm advs; pure (joinS ("model:" :: toString r.1 :: r.2.map showEnt))
+  | "FV" :: upm :: n :: ts => do
+    -- verdict on a font object: n (adv uni|-1) pairs | dw W… | TU…
+    let upm ← upm.toInt?
+    let n ← n.toNat?
+    if ts.length < 2 * n then none else
+    let au ← ints? (ts.take (2 * n))
+    let rec split : List Int → List Int × List (Option Nat)
+      | a :: u :: r => let q := split r; (a :: q.1, (if u < 0 then none else some u.toNat) :: q.2)
+      | _ => ([], [])
+    let (advs, unis) := split au
+    let (_, r1) := splitBar (ts.drop (2 * n))
+    let (wt, tt) := splitBar r1
+    let dw ← wt.head? >>= String.toInt?
+    let es ← parseEnts (wt.drop 1)
+    let (rg, ch) ← parseTU tt
+    match fontVerdict ⟨upm, advs, unis, dw, es, rg, ch⟩ with
+    | none => pure "ok"
+    | some k => pure s!"bad code {k}: W {lookupW dw es k} want {wWidth upm (advs.getD k 0)}, ToUnicode {repr (tuLookup rg ch k)} want {repr (unis.getD k none)}"
   | "PATH" :: f :: x :: y :: ts => do
     let f ← f.toInt?
     let x ← x.toInt?
